@@ -123,9 +123,11 @@ func (evpool *Pool) Update(state sm.State, ev types.EvidenceList) {
 	// move committed evidence out from the pending pool and into the committed pool
 	evpool.markEvidenceAsCommitted(ev)
 
-	// prune pending evidence when it has expired. This also updates when the next evidence will expire
-	if evpool.Size() > 0 && state.LastBlockHeight > evpool.pruningHeight &&
-		state.LastBlockTime.After(evpool.pruningTime) {
+	// prune pending evidence when it has expired. The pruning height and time recorded by the last
+	// pruning cannot be used to skip this: they are one block / one second late, and evidence of an
+	// older height may have been added since, so expired evidence would stay pending (and would be
+	// proposed, and pass CheckEvidence) for a while.
+	if evpool.Size() > 0 {
 		evpool.pruningHeight, evpool.pruningTime = evpool.removeExpiredPendingEvidence()
 	}
 }
